@@ -410,6 +410,79 @@ func checkC12(c *Ctx) *core.Result {
 			r.Fail("K2", "-", "increment of "+f, "-", fmt.Sprintf("no increment of %s is reachable from the tokenizer: the gate/whitelist input is dead", f))
 		}
 	}
+	// every token-producing return of the tokenizer counts the token: the whitelist reads
+	// the token counter, and the virtual-quote step produces a token like any other
+	{
+		ntokWriters := mayWriteField(p, stName, ntok)
+		countsHere := func(b *ssa.BasicBlock) bool {
+			for d := 0; d < 6 && b != nil; d++ {
+				for _, ins := range b.Instrs {
+					switch x := ins.(type) {
+					case *ssa.Store:
+						if fr, ok := ssax.AsFieldAddr(x.Addr); ok && fr.Struct == stName && fr.Field == ntok {
+							return true
+						}
+					case *ssa.Call:
+						if cal := x.Call.StaticCallee(); cal != nil && p.InModule(cal) && cal != tokenize && ntokWriters[cal] && len(cal.Blocks) <= 3 {
+							return true // a small helper that bumps the counter
+						}
+					}
+				}
+				// walk up through straight-line predecessors only
+				if len(b.Preds) != 1 || len(b.Preds[0].Succs) != 1 {
+					return false
+				}
+				b = b.Preds[0]
+			}
+			return false
+		}
+		nTrue := 0
+		for _, ret := range ssax.Returns(tokenize) {
+			if len(ret.Results) != 1 {
+				continue
+			}
+			type way struct {
+				b    *ssa.BasicBlock
+				desc string
+			}
+			var ways []way
+			undecided := false
+			switch v := ret.Results[0].(type) {
+			case *ssa.Const:
+				if b, _ := ssax.ConstBool(v); b {
+					ways = append(ways, way{ret.Block(), "return true"})
+				}
+			case *ssa.Phi:
+				for i, e := range v.Edges {
+					if b, isC := ssax.ConstBool(e); isC {
+						if b {
+							ways = append(ways, way{v.Block().Preds[i], fmt.Sprintf("return true (edge %d)", i)})
+						}
+					} else {
+						undecided = true
+					}
+				}
+			default:
+				undecided = true
+			}
+			if undecided {
+				r.Fail("K2", core.QualName(tokenize), "token counter at "+retLabel(ret), p.Pos(ret.Pos()), "the tokenizer returns a computed verdict: whether every produced token is counted is undecided")
+				continue
+			}
+			for _, w := range ways {
+				nTrue++
+				expr := "token counter incremented before " + w.desc + " at " + retLabel(ret)
+				if countsHere(w.b) {
+					r.OK("K2", core.QualName(tokenize), expr, p.Pos(ret.Pos()), "")
+				} else {
+					r.Fail("K2", core.QualName(tokenize), expr, p.Pos(ret.Pos()), "the tokenizer reports a token without counting it: the whitelist rules that read the token count see one token fewer in this reading than when the same text is read as-is")
+				}
+			}
+		}
+		if nTrue == 0 {
+			r.Fail("vacuity", core.QualName(tokenize), "token-producing returns", p.Pos(tokenize.Pos()), "no `return true` found in the tokenizer")
+		}
+	}
 	for _, st := range incSites[ddx] {
 		fn := st.Parent()
 		hasAnsi, hasDash, white := false, false, false
